@@ -286,6 +286,13 @@ fn __collect(state: &State, possible_cycles: &PossibleCycles) {
         let mut root_list = LinkedList::new();
         let mut queue = LinkedQueue::new();
 
+        // The collection may have been started from a finalizer or a destructor executed by Cc::drop outside
+        // of a collection, which leaves state.finalizing or state.dropping set. Clear them during the tracing
+        // phases, so that is_tracing() returns true while tracing. The guards restore the previous values
+        #[cfg(feature = "finalization")]
+        let _finalizing_guard = replace_state_field!(finalizing, false, state);
+        let _dropping_guard = replace_state_field!(dropping, false, state);
+
         trace_counting(possible_cycles, &mut root_list, &mut non_root_list, &mut queue);
         trace_roots(root_list, &mut non_root_list, queue);
     }
